@@ -710,6 +710,15 @@ E('sqrt', ['n'], key='sqrt_int', fam='B', tol=2)
 E('sqrt', ['k'], key='sqrt_negint', fam='B', tol=2)
 E('root', ['p', 'i:2:9'], key='root_real_pos', fam='B', tol=4)
 
+# --- result paths that round inside a raised-precision block (found by the round-9 sub-agent) ---------------------------------
+E('gammainc', ['m', 'P'], key='gammainc_int_reg', fam='E', tol=8, cost=2, maxprec=400, kw={'regularized': (0.8, '=1')})
+E('gammainc', ['m', 'P', 'g'], key='gammainc_int_ab', fam='E', tol=8, cost=2, maxprec=400, kw={'regularized': (0.5, '=1')})
+E('hyper', [lambda r, c: L(*[real_spec(r, -2, 2, cfg=c) for _ in range(r.randint(2, 3))]), lambda r, c: L(),
+            lambda r, c: real_spec(r, -14, -8, cfg=c)], key='hyper_borel', fam='G', tol=10, cost=2, maxprec=300)
+for _m in ['workprec', 'workdps', 'extraprec', 'extradps']:
+    E(_m, [('i:60:400' if _m == 'workprec' else ('i:20:90' if _m == 'workdps' else 'i:1:60')), 'cb:gammaf', 'P'], op='deco:' + _m, key='deco_norm_' + _m,
+      fam='L', tol=8, kw={'normalize_output': '=1'})
+
 # --- large half-integers at high precision: gamma goes through the double-factorial table of libintmath there ---------
 def _halfbig(r, c):
     return {'t': 'float', 'v': float(r.randint(400, 1300) + 0.5).hex()}
